@@ -39,6 +39,8 @@ def run(ctx):
     rule_cmp(ctx, F)
     rule_sig(ctx, F)
     rule_order(ctx, F)
+    rule_lookup(ctx, F)
+    rule_rollback(ctx, F)
 
 
 SEGS = [("new::base::name::absolute::parse_segment", "size", +1), ("new::base::name::reversed::parse_segment", "offset", -1)]
@@ -232,6 +234,11 @@ def rule_cmp(ctx, F):
                         stores.append((bi, st))
                     if names[:1] == ["last_use"]:
                         stamps.append((bi, st))
+                elif st[0] == "=" and len(st[1]) == 2 and st[1][1] == "*":
+                    # store through a `&mut self.last_use[i]` reference
+                    tp = deep_strip(b.term_of_place(st[1]))
+                    if tp[0] == "idx" and deep_strip(tp[1])[0] == "field" and deep_strip(tp[1])[2] == "last_use":
+                        stamps.append((bi, st))
         if not ctx.anchor(R, "%s: store into self.pos[..]" % fn, len(stores) == 1, b.where()):
             continue
         bi, st = stores[0]
@@ -400,3 +407,202 @@ def rule_order(ctx, F):
                    "(derive-based, declaration order) and the established codec read the octets in the declared order"
                    % (adt.split("::")[-1], it["name"], order, fields), nontrivial=len(order) > 2)
     ctx.call_sites += n
+
+
+# ---------------------------------------------------------------------------
+# the compressor's lookups: remainder / pointer agreement, parent identity,
+# initialised entries only, monotone stamps
+# ---------------------------------------------------------------------------
+
+NC = "new::base::name::compressor::NameCompressor::"
+
+
+def _some_tuples(b):
+    """[(block, [operand terms])] for every `Some((..))` the function returns"""
+    out = []
+    for bi in sorted(b.reachable_blocks()):
+        for st in b.blocks[bi]["s"]:
+            if st[0] == "=" and st[1] == [0] and st[2][0] == "agg" and st[2][1][0] == "adt" and st[2][1][2] == "Some":
+                tt = deep_strip(b.term_of_operand(st[2][2][0]))
+                if tt[0] == "agg" and tt[1][0] == "tuple":
+                    out.append((bi, st[2][2][0], tt[2]))
+    return out
+
+
+def rule_lookup(ctx, F):
+    R = "C19.lookup"
+    ctx.floor(R, 6)
+    from rulelib import cyclic_blocks, bool_facts
+    # (1) revname: the label loop trims `entry` per matched label; the returned remainder must shrink with it
+    b = F.one_body("^" + re.escape(NC) + r"lookup_entry_for_revname$")
+    if ctx.anchor(R, "NameCompressor::lookup_entry_for_revname", b):
+        cyc = cyclic_blocks(b)
+        somes = _some_tuples(b)
+        ctx.anchor(R, "Some((index, rest, pos)) of lookup_entry_for_revname", len(somes) >= 1, b.where())
+        for bi, op, elems in somes:
+            if len(elems) < 3:
+                continue
+            rest_raw = b.term_of_operand(op)
+            # root local the remainder is computed from (the iterator behind remaining(), or a slice variable)
+            roots = set()
+            rt = b.term_of_operand(op)
+            for s in walk(rt):
+                if s[0] == "local":
+                    roots.add(s[1])
+            # statements: find the tuple's second operand local
+            agg_local = op[1][0] if op[0] in ("c", "m") else None
+            second = None
+            for blk in b.blocks:
+                for st in blk["s"]:
+                    if st[0] == "=" and st[1] == [agg_local] and st[2][0] == "agg" and st[2][1][0] == "tuple" and len(st[2][2]) >= 2:
+                        second = st[2][2][1]
+            src = set()
+            if second is not None and second[0] in ("c", "m"):
+                # follow copies / the receiver of `remaining(&X)`
+                work = [second[1][0]]
+                seen = set()
+                while work:
+                    l = work.pop()
+                    if l in seen:
+                        continue
+                    seen.add(l)
+                    for d in b.defs().get(l, []):
+                        if d[0] == "stmt":
+                            rv = d[3]
+                            if rv[0] in ("use",) and rv[1][0] in ("c", "m"):
+                                work.append(rv[1][1][0])
+                            elif rv[0] in ("ref", "deref"):
+                                work.append((rv[2] if rv[0] == "ref" else rv[1])[0])
+                        elif d[0] == "call":
+                            tcall = b.blocks[d[1]]["t"]
+                            for a in tcall["args"]:
+                                if a[0] in ("c", "m"):
+                                    work.append(a[1][0])
+                    src.add(l)
+            # blocks of the label loop that re-slice the matched entry
+            trims = set()
+            for ci in cyc:
+                for st in b.blocks[ci]["s"]:
+                    if st[0] == "=" and len(st[1]) == 1 and b.locals[st[1][0]].startswith("&[u8]"):
+                        trims.add(st[1][0])
+            # is anything the remainder derives from written (or mutably borrowed) inside the loop?
+            advanced = False
+            for ci in cyc:
+                for st in b.blocks[ci]["s"]:
+                    if st[0] == "=" and len(st[1]) == 1 and st[1][0] in src:
+                        # a re-assignment, inside the loop, of something the returned remainder derives from
+                        if b.locals[st[1][0]].startswith(("&[u8]", "new::base::name::label::LabelIter")):
+                            advanced = True
+                    if st[0] == "=" and st[2][0] == "ref" and st[2][1] is True and st[2][2][0] in src \
+                            and b.locals[st[2][2][0]].startswith("new::base::name::label::LabelIter"):
+                        advanced = True    # &mut iterator handed to next()
+            ctx.ob(R, b, "the remainder shrinks with every label the pointer covers", advanced,
+                   "lookup_entry_for_revname trims the matched entry once per matching label inside its loop but "
+                   "returns a remainder that the loop never advances (it iterates a clone): every label matched after "
+                   "the first is written out *and* covered by the pointer, so the name reads back with labels duplicated",
+                   b.where(bi))
+    # (2) both lookups: only an entry that is shared *whole* may become the parent of what remains
+    for fn, nrest in (("lookup_entry_for_name", 1), ("lookup_entry_for_revname", 1)):
+        b = F.one_body("^" + re.escape(NC) + fn + "$")
+        if not ctx.anchor(R, "NameCompressor::%s" % fn, b):
+            continue
+        k = 0
+        for bi, op, elems in _some_tuples(b):
+            k += 1
+            off = deep_strip(elems[-1])
+            rest = deep_strip(elems[1])
+            whole = not any(s[0] == "bin" and s[1] in ("Add", "Sub", "AddWithOverflow", "SubWithOverflow") for s in walk(off))
+            def _empty_range(x):
+                return any(s[0] == "agg" and len(s[1]) > 1 and str(s[1][1]).endswith("RangeTo") and s[2] and
+                           const_value(deep_strip(s[2][0])) == 0 for s in walk(x))
+            empty_rest = _empty_range(rest) or _empty_range(elems[1])
+            ctx.ob(R, b, "%s: result#%d names the entry as parent only if it is shared whole (or nothing remains)" % (fn, k),
+                   whole or empty_rest,
+                   "%s returns entry i together with an offset *inside* entry i and a non-empty remainder: the "
+                   "remainder is then registered as a child of i although it continues only a suffix of i; since "
+                   "children are found by (hash, parent index) alone, a later name that continues the whole of i (or "
+                   "the other way round) is compressed against it and reads back as a different name" % fn, b.where(bi))
+    # (3) lookups never match an uninitialised slot
+    for fn in ("lookup_entry_for_name", "lookup_entry_for_revname"):
+        b = F.one_body("^" + re.escape(NC) + fn + "$")
+        if b is None:
+            continue
+        gets = [bb for bb, t in b.calls() if re.search(r"<\[u8\]>::get$|slice::<impl \[T\]>::get$|::get$", t["fn"] or "")
+                and t["targs"] and "Range" in " ".join(t["targs"])]
+        for bb in gets[:1]:
+            ok = False
+            for tt, vv in bool_facts(b, bb, F):
+                s = show(tt)
+                if tt[0] == "bin" and tt[1] in ("Eq", "Ne") and const_value(tt[3]) == 0 and (".len[" in s or ".last_use[" in s) \
+                        and ((tt[1] == "Ne") == bool(vv)):
+                    ok = True
+            ctx.ob(R, b, "%s: an uninitialised slot is skipped" % fn, ok,
+                   "%s matches slots on (hash, parent) only; an empty slot has hash 0, parent 0, len 0 and therefore "
+                   "looks like a child of entry 0 for any label hashing to 0 (the emptiness check is a debug_assert): "
+                   "release builds emit a pointer for a name that was never written" % fn, b.where(bb))
+    # (4) a used entry's stamp never decreases (a parent must outlive its children)
+    for fn in ("compress_name", "compress_revname"):
+        b = F.one_body("^" + re.escape(NC) + fn + "$")
+        if b is None:
+            continue
+        cyc = cyclic_blocks(b)
+        k = 0
+        for bi in sorted(cyc):
+            for st in b.blocks[bi]["s"]:
+                direct = st[0] == "=" and len(st[1]) > 2 and any(isinstance(pr, list) and pr[0] == "." and pr[2] == "last_use" for pr in st[1][1:])
+                via_ref = False
+                if st[0] == "=" and len(st[1]) == 2 and st[1][1] == "*":
+                    tp = deep_strip(b.term_of_place(st[1]))
+                    via_ref = tp[0] == "idx" and deep_strip(tp[1])[0] == "field" and deep_strip(tp[1])[2] == "last_use"
+                if direct or via_ref:
+                    k += 1
+                    v = b.term_of_rvalue(st[2])
+                    mono = any(s[0] == "call" and re.search(r"::max$", s[1] or "") and
+                               any(x[0] == "field" and x[2] == "last_use" for a in s[3] for x in walk(a)) for s in walk(v)) or \
+                        any(tt[0] == "bin" and tt[1] in ("Lt", "Le", "Gt", "Ge") and "last_use" in show(tt) for tt, vv in bool_facts(b, bi, F))
+                    ctx.ob(R, b, "%s: the stamp of a used entry only grows" % fn, mono,
+                           "%s overwrites last_use[parent] with contents.len() + remaining length: a later use with a "
+                           "short remainder lowers the parent's stamp below that of a live child, the parent slot is "
+                           "evicted first and the child keeps pointing at it by index — a later name compresses against "
+                           "the reused slot and reads back as a different name" % fn, b.where(bi))
+        ctx.anchor(R, "%s: stamp store of a used entry inside the lookup loop" % fn, k >= 1, b.where())
+
+
+# ---------------------------------------------------------------------------
+# a failed push leaves the compressor as it was
+# ---------------------------------------------------------------------------
+
+def rule_rollback(ctx, F):
+    """MessageBuilder::push hands `self.compressor` to build_in_message, which
+    registers names as it writes them.  When the item does not fit, the bytes
+    are abandoned (offset unchanged) but the compressor still remembers the
+    names at offsets where something else will be written next."""
+    R = "C19.rollback"
+    ctx.floor(R, 1)
+    bs = [b for p, b in F.bodies.items() if re.match(r"^new::base::build::message::MessageBuilder::<'b, 'c>::push$|^new::base::build::message::MessageBuilder::<.*>::push$", p)]
+    if not ctx.anchor(R, "new MessageBuilder::push", len(bs) == 1):
+        return
+    b = bs[0]
+    builds = [bb for bb, t in b.calls() if re.search(r"::build_in_message$", t["fn"] or "") and
+              any(any(s[0] == "field" and s[2] == "compressor" for s in walk(b.term_of_operand(a))) for a in t["args"])]
+    if not ctx.anchor(R, "build_in_message(.., self.compressor) in push", len(builds) >= 1, b.where()):
+        return
+    restores = set()
+    for bi, t in b.calls():
+        if re.search(r"NameCompressor::(reset|restore|truncate|clear|clone_from)$|Clone::clone_from$", t["fn"] or ""):
+            restores.add(bi)
+    for bi in b.reachable_blocks():
+        for st in b.blocks[bi]["s"]:
+            if st[0] == "=" and len(st[1]) >= 3:
+                tp = deep_strip(b.term_of_place(st[1]))
+                if tp[0] == "deref" and deep_strip(tp[1])[0] == "field" and deep_strip(tp[1])[2] == "compressor":
+                    restores.add(bi)
+    errs = [r[0] for r in return_assignments(b) if r[2] == "Err"]
+    bad = []
+    for bb in builds:
+        reach = b.reach_from(bb, removed_blocks=restores)
+        bad += [e for e in errs if e in reach and e != bb]
+    ctx.ob(R, b, "failure exit restores the compressor", not bad,
+           "MessageBuilder::push returns an error after build_in_message may have registered names in the compressor, "
+           "without resetting it (the source carries a TODO): the stale entries match whatever is written at those "
+           "offsets next, and a later name is compressed against bytes that are not the name it remembers", b.where(builds[0]))
